@@ -34,6 +34,7 @@ RULE += (' Also: clean-up after the yield raising StopAsyncIteration / RuntimeEr
 RULE += (" Also: clean-up failing with a RuntimeError whose cause is another RuntimeError raised from the block's exception.")
 RULE += (" Also: proper subclasses of RuntimeError raised from the block's exception.")
 RULE += (' Also: blocks that finish the manager\'s generator themselves (manager.gen.aclose()) before they leave, normally or by an exception.')
+RULE += (' Also: falsy Stop(Async)Iteration subclasses leaving the block.')
 ASSUMPTIONS = ["contextlib.asynccontextmanager of the running interpreter is the reference",
                "__cause__/__context__ chains and messages are not compared"]
 EXHAUSTIVE = {"quick": True, "thorough": True}
@@ -130,7 +131,19 @@ class FalsyRuntime(RuntimeError):
         return False
 
 
-OUTCOME = {"normal": None, "FalsyError": FalsyError, "FalsyRuntime": FalsyRuntime,
+class FalsyStopAsync(StopAsyncIteration):
+    """An end-of-stream signal that is also an (empty) batch: an instance that tests false."""
+
+    def __len__(self):
+        return 0
+
+
+class FalsyStop(StopIteration):
+    def __bool__(self):
+        return False
+
+
+OUTCOME = {"normal": None, "FalsyError": FalsyError, "FalsyRuntime": FalsyRuntime, "FalsyStopAsync": FalsyStopAsync, "FalsyStop": FalsyStop,
            "EqStopAsync": EqStopAsync, "EqStop": EqStop, "EqRuntime": EqRuntime, "LenientEq": LenientEq, "ValueError": ValueError, "Exception": Exception, "GeneratorExitSub": GeneratorExitSub,
            "BaseException": BaseException, "StopIteration": StopIteration,
            "StopAsyncIteration": StopAsyncIteration, "RuntimeError": RuntimeError, "GeneratorExit": GeneratorExit,
